@@ -1034,6 +1034,9 @@ func TestVerifReplay(t *testing.T) {
 		for _, ch := range alphabet { gen(append(cur, ch), n-1) }
 	}
 	gen(nil, %(maxlen)d)
+	// sequences of multi-character symbols (the cached symbol texts must not influence each other)
+	symbols := []string{"<=", "<>", "<<", ">=", ">>", "!=", "<", "="}
+	for _, a := range symbols { for _, b := range symbols { for _, c := range symbols { inputs = append(inputs, "x"+a+"y"+b+"z"+c+"w") } } }
 	bad := 0
 	for _, in := range inputs {
 		for name, f := range mk {
@@ -1106,8 +1109,10 @@ func TestVerifReplay(t *testing.T) {
 	check := func(reg []string) {
 		st := NewGenericSymbolState()
 		typ := map[string]int{}
-		for i, s := range reg { st.Add(s, 100+i); typ[s] = 100 + i }
-		// registering a longer symbol makes its first character a plain Symbol unless registered itself
+		// symbols are registered one at a time and the table is exercised after every registration
+		// (registering further symbols must not alter what is reported for existing ones)
+		for i, s := range reg {
+		st.Add(s, 100+i); typ[s] = 100 + i
 		for pass := 0; pass < 2; pass++ {
 			for _, in := range inputs {
 				runes := []rune(in)
@@ -1117,7 +1122,7 @@ func TestVerifReplay(t *testing.T) {
 					tok := st.NextToken(sc, nil)
 					want := string(runes[pos : pos+1]); wtyp := tokenizers.Symbol
 					if ty, ok := typ[want]; ok { wtyp = ty }
-					for l := 3; l >= 2; l-- {
+					for l := 4; l >= 2; l-- {
 						if pos+l <= len(runes) { if ty, ok := typ[string(runes[pos:pos+l])]; ok { want = string(runes[pos : pos+l]); wtyp = ty; break } }
 					}
 					if tok.Value() != want || tok.Type() != wtyp {
@@ -1129,6 +1134,19 @@ func TestVerifReplay(t *testing.T) {
 					if sc.Peek() != rest.Peek() { t.Fatalf("symbols %%q, input %%q: consumed a wrong number of characters after %%q", reg, in, want) }
 				}
 			}
+		}
+		}
+	}
+	// longer symbols with a proper prefix registered before or after them (a node deeper than the newly
+	// registered symbol must fall back to it)
+	var four []string
+	var g4 func(cur []rune)
+	g4 = func(cur []rune) { if len(cur) == 4 { four = append(four, string(cur)); return }; for _, c := range abc { g4(append(cur, c)) } }
+	g4(nil)
+	for _, s4 := range four {
+		for _, pl := range []int{2, 3} {
+			check([]string{s4, s4[:pl]})
+			check([]string{s4[:pl], s4})
 		}
 	}
 	n := len(syms)
@@ -1150,7 +1168,7 @@ func TestVerifReplay(t *testing.T) {
 @family(r'/tokenizers/generic\.Symbol|/tokenizers/generic\.GenericSymbolState')
 class SymbolFamily(Family):
     @classmethod
-    def source(cls, inlen=4, kstep=5):
+    def source(cls, inlen=4, kstep=11):
         return SYMBOL_TEST % {'inlen': inlen, 'kstep': kstep}
 
     def inputs(self):
@@ -1162,7 +1180,7 @@ class SymbolFamily(Family):
     @classmethod
     def bounded_source(cls, prog, fname):
         return ('tokenizers/generic', cls.source(),
-                'symbol sets of size <= 3 (length 1..3 over {<,=,>}, every order; third symbol sampled every 5th) x inputs up to length 4 over {<,=,>,a}, two passes')
+                'symbol sets of size <= 3 (length 1..3 over {<,=,>}, every order; third symbol sampled every 11th; the table is exercised after every single registration) x inputs up to length 4 over {<,=,>,a}, two passes')
 
 
 QUOTE_TEST = '''package csv_test
